@@ -72,7 +72,10 @@ CHECKS = {
             "must agree; the adapter x element-kind x method-name matrix is checked against a table "
             "transcribed from the adapter docstrings.",
             "Count wrapped in FillCompute where an accumulator is meant; Mean/VarianceMeanCount on a "
-            "finite value domain; Histogram with the linear-scan cut.", CH),
+            "finite value domain under CrossHair and on symbolic reals under engine R (four drivers, "
+            "8 pre kinds x 5 accumulators); Histogram with the linear-scan cut.",
+            "proxy symbolic execution of the real lena code over z3 reals with NRA validity queries "
+            "(engine R, verif/symreal.py) and " + CH),
     "C09": ("2/C09",
             "operation histories fill/compute/reset of Count, Sum, Mean, Vectorize, StoreFilled, GroupBy, "
             "Histogram with symbolic data and contexts vs the documented aggregate and vs a fresh element "
@@ -207,7 +210,7 @@ def main():
                                "worker processes, adds a reachability twin per condition and "
                                "replays every counterexample in plain CPython"},
             {"name": "reals-R", "path": "verif/symreal.py",
-             "serves_properties": [p for p in ("C09", "C12") if p in CHECKS],
+             "serves_properties": [p for p in ("C05", "C09", "C12") if p in CHECKS],
              "kind_free_text": "proxy objects holding z3 Real terms are passed through the real lena "
                                "functions; comparisons fork paths (feasibility by z3, depth-first "
                                "re-execution), obligations are validity queries in non-linear real "
